@@ -7,9 +7,9 @@ sys.path.insert(0, '/verif')
 from sa.engine.program import Program, read_sources_git, AnalysisError
 from sa import check
 ap = argparse.ArgumentParser()
-ap.add_argument('pid'); ap.add_argument('--rev'); ap.add_argument('--tier', default='quick'); ap.add_argument('-v', action='store_true')
+ap.add_argument('pid'); ap.add_argument('--rev'); ap.add_argument('--root'); ap.add_argument('--tier', default='quick'); ap.add_argument('-v', action='store_true')
 a = ap.parse_args()
-prog = Program(read_sources_git(a.rev), label=a.rev) if a.rev else Program.from_repo()
+prog = Program(read_sources_git(a.rev), label=a.rev) if a.rev else Program.from_repo(a.root)
 try:
     mod, results, ctx, new, matched, stale = check.run_property(a.pid.upper(), prog, a.tier)
 except AnalysisError as e:
